@@ -511,7 +511,7 @@ fn interleaved(rep: &Reporter, max_len: usize, bound: usize, samples: &Samples) 
             let mut current: Option<String> = None;
             let mut done = false;
             loop {
-              match rx.recv_timeout(Duration::from_secs(8)) {
+              match rx.recv_timeout(Duration::from_secs(30)) {
                 Ok(line) => {
                   if let Some(p) = line.strip_prefix("BEGIN ") {
                     current = Some(p.to_string());
